@@ -116,7 +116,10 @@ def exact_dists(cfg, meas_rows, m):
 
 
 def cast_point(cfg, m):
-    return [float(cast(cfg, v)) for v in m]
+    # "offset" configurations: every measure coordinate carries the same large offset (time stamps, absolute positions); the distances
+    # between the points stay small and exactly representable, |m| / distance is huge
+    off = float(cfg.get("offset", 0.0))
+    return [float(cast(cfg, v + off)) for v in m]
 
 
 # ---------------------------------------------------------------------------------------------
@@ -709,6 +712,8 @@ def gen_case(rng, tier, force=None):
            "dim": 1 if stream == "exact1d" else rng.choice([2, 2, 3]), "sol_dim": rng.randint(1, 3),
            "extras": rng.choice([[], [], ["es"], ["es", "eo"]]), "leaf": rng.choice([None, 1, 1, 2, 3])}
     cfg["thr"] = rng.choice(THR_1D if stream == "exact1d" else THR_ND)
+    if cfg["dtype"] == "d" and rng.random() < 0.2:
+        cfg["offset"] = float(rng.choice([2 ** 30, -(2 ** 30), 2 ** 31 + 2 ** 20]))
     if stream == "lattice":
         cfg["half"] = rng.random() < 0.3
         cfg["span"] = rng.choice([2, 3, 4, 6])
